@@ -478,8 +478,9 @@ def rule_hola_returns(chk, prog):
 def run(chk):
     prog = chk.load()
     chk.guard(rule_hola_returns, chk, prog)
-    from .c19 import rule_sibling_trees
+    from .c19 import rule_sibling_trees, rule_leaf_bounds
     chk.guard(rule_sibling_trees, chk, prog)       # tree nodes on top of each other are node overlaps of the HOLA result too
+    chk.guard(rule_leaf_bounds, chk, prog)
     chk.guard(rule_padding, chk, prog)
     chk.guard(rule_primitives, chk, prog)
     chk.guard(rule_orthogonal, chk, prog)
